@@ -39,3 +39,16 @@ Print Assumptions C14_decode_total.
 Print Assumptions C14_generic_decode_total.
 Print Assumptions C14_encoded_form_is_one_token.
 Print Assumptions C14_byte_length_index_refuted.
+
+(* State space: the objects this property's model stands for have exactly the fields the model accounts for (StateSpace.v;
+   gen/StateSpaceGen.v is regenerated from the Go sources on every run). A new field - a cache, a memo, a counter - is state
+   the model does not have, so the theorems above would no longer be about the object. *)
+From Coq Require Import String.
+Require Import StateSpaceGen StateSpace.
+Open Scope string_scope.
+Theorem C14_state_space :
+  fields_of "calculator/tokenizers.ExpressionQuoteState" = fields [] /\
+  fields_of "tokenizers/generic.GenericQuoteState" = fields [] /\
+  fields_of "csv.CsvQuoteState" = fields [].
+Proof. vm_compute. repeat split; reflexivity. Qed.
+Print Assumptions C14_state_space.
